@@ -20,6 +20,15 @@ package shard
 // of put / delete / GC interleave with the steps of a flush round the way the script says.
 // Every complete run is also judged after a clean stop behind its last operation.
 //
+// A third family (vf15GenModeHist) are short histories on a shard that went through a mode
+// round trip (read-only and back), i.e. whose components were set up by a mode switch and
+// not by the start; their crash points go down to the syscall points of the file writes in
+// every tier.  And no recovery ends with the first look at the restarted shard: the shard
+// goes on (vf15Continuation: the interrupted put is repeated, members are put again, the
+// cache is flushed, possibly another mode round trip), is stopped cleanly and started a
+// second time, and the same statement is demanded after the continuation and after the
+// second restart (vf15Continue).
+//
 // The oracle knows nothing about the order of the component steps: it only compares what
 // the metabase says with what can be read.
 
@@ -43,6 +52,7 @@ import (
 	"github.com/nspcc-dev/neofs-node/internal/verifkit"
 	"github.com/nspcc-dev/neofs-node/pkg/local_object_storage/blobstor/fstree"
 	meta "github.com/nspcc-dev/neofs-node/pkg/local_object_storage/metabase"
+	"github.com/nspcc-dev/neofs-node/pkg/local_object_storage/shard/mode"
 	"github.com/nspcc-dev/neofs-node/pkg/local_object_storage/writecache"
 	cid "github.com/nspcc-dev/neofs-sdk-go/container/id"
 	"github.com/nspcc-dev/neofs-sdk-go/object"
@@ -67,7 +77,7 @@ func (vf15NoPayments) PaymentsDisabled() bool            { return true }
 func (vf15NoPayments) UnpaidSince(cid.ID) (int64, error) { return -1, nil }
 
 type vf15Op struct {
-	Kind string `json:"kind"` // put | delete | mark-redundant | mark-garbage | tombstone | epoch | gc | flush | bgflush | bg
+	Kind string `json:"kind"` // put | delete | mark-redundant | mark-garbage | tombstone | epoch | gc | flush | bgflush | bg | mode-cycle
 	Obj  int    `json:"obj"`
 	// Gate (kind "bg" only): the background flusher is let run until it stands at its next step
 	// boundary of this kind and is HELD there while the following operations of the script
@@ -79,10 +89,21 @@ type vf15Op struct {
 
 func vf15NoArg(kind string) bool {
 	switch kind {
-	case "gc", "flush", "bgflush", "epoch":
+	case "gc", "flush", "bgflush", "epoch", "mode-cycle":
 		return true
 	}
 	return false
+}
+
+// vf15ModeCycle is the "mode-cycle" operation: the shard is switched to read-only and back
+// to read-write (maintenance round trip).  Every component is re-opened by it; from then on
+// the shard works with whatever its components set up on a mode switch (which differs from
+// what they set up on start, e.g. in the file writer the write-cache uses).
+func vf15ModeCycle(sh *Shard) error {
+	if err := sh.SetMode(mode.ReadOnly); err != nil {
+		return err
+	}
+	return sh.SetMode(mode.ReadWrite)
 }
 
 func (o vf15Op) String() string {
@@ -384,6 +405,8 @@ func vf15Child(specPath string) {
 					sh.setEpochEventHandler(EventNewEpoch(vf15NewEpoch))
 				case "gc":
 					sh.removeGarbage()
+				case "mode-cycle":
+					return vf15ModeCycle(sh)
 				case "flush":
 					ctl.fgFlush.Store(true)
 					defer ctl.fgFlush.Store(false)
@@ -425,6 +448,7 @@ type vf15Hist struct {
 	overlap   bool // operations execute while the flusher is held inside a flush round
 	enumerate bool // crash points are enumerated (otherwise only the stop after the last operation is judged)
 	firstBg   int  // overlap histories: index of the first bg operation
+	syscalls  bool // the FSTree syscall points are crash points in the quick tier too (a stop inside one file write leaves partial files for what follows the restart)
 
 	dryJournal  []string             // journal of the complete (dry) run
 	cleanFailed map[oid.Address]bool // addresses already unreadable after the complete run + clean stop
@@ -685,6 +709,112 @@ func vf15GenOverlapHist(r *verifkit.Run, idx int) *vf15Hist {
 	return hs
 }
 
+// vf15GenModeHist: a short history (<= 6 operations, write-cache on) on a shard that, in 3 of
+// 4 histories, goes through a mode round trip (read-only and back) before or between its puts,
+// so that the operations run on components set up by a mode switch and not by the start.  The
+// syscall points inside the file writes are crash points of these histories in every tier:
+// what a stop inside one write leaves on disk is what the continuation after the restart
+// (vf15Continuation) has to cope with.
+func vf15GenModeHist(r *verifkit.Run, idx int) *vf15Hist {
+	rng := r.Rand("modehist", idx)
+	hs := &vf15Hist{idx: 2000 + idx, wc: true, thr: 2048, bc: 2 + rng.IntN(3), syscalls: true}
+	cnr, owner := verifkit.RandCID(rng), verifkit.RandUser(rng)
+	n := 3
+	for i := 0; i < n; i++ {
+		pl := 32 + 40*i + rng.IntN(30)
+		if rng.IntN(3) == 0 {
+			pl = 2100 + 500*i + rng.IntN(400)
+		}
+		o := verifkit.NewObject(rng, cnr, owner, pl)
+		hs.objs = append(hs.objs, o)
+		hs.bins = append(hs.bins, o.Marshal())
+		ts := verifkit.NewObject(rng, cnr, owner, 0)
+		ts.SetType(object.TypeTombstone)
+		ts.AssociateDeleted(o.GetID())
+		verifkit.SetExpiration(ts, vf15TombExp)
+		hs.tombs = append(hs.tombs, ts.Marshal())
+	}
+	cyclePos := -1 // every fourth history: no mode round trip at all
+	switch idx % 4 {
+	case 0, 1:
+		cyclePos = 0 // before everything else
+	case 2:
+		cyclePos = 1 // after the first put
+	}
+	put := map[int]bool{}
+	nOps := 3 + rng.IntN(2)
+	for k := 0; k < nOps; k++ {
+		if len(hs.ops) == cyclePos {
+			hs.ops = append(hs.ops, vf15Op{Kind: "mode-cycle"})
+		}
+		var have []int
+		for i := 0; i < n; i++ {
+			if put[i] {
+				have = append(have, i)
+			}
+		}
+		kinds := []string{"put-again", "flush", "delete", "mark-redundant", "gc"}
+		if len(put) < n {
+			kinds = append(kinds, "put", "put", "put", "put")
+		}
+		kind := kinds[rng.IntN(len(kinds))]
+		if len(have) == 0 {
+			kind = "put"
+		}
+		switch kind {
+		case "put":
+			i := rng.IntN(n)
+			for put[i] {
+				i = (i + 1) % n
+			}
+			put[i] = true
+			hs.ops = append(hs.ops, vf15Op{Kind: "put", Obj: i})
+		case "put-again":
+			hs.ops = append(hs.ops, vf15Op{Kind: "put", Obj: have[rng.IntN(len(have))]})
+		case "flush", "gc":
+			hs.ops = append(hs.ops, vf15Op{Kind: kind})
+		default:
+			hs.ops = append(hs.ops, vf15Op{Kind: kind, Obj: have[rng.IntN(len(have))]})
+		}
+	}
+	return hs
+}
+
+// vf15Continuation: what the restarted node goes on with after the recovery check.  The
+// request that was in progress when the node stopped was never acknowledged, so whoever sent
+// it sends it again: an interrupted put / tombstone put is repeated first; otherwise some
+// member of the universe is put (again).  Up to two more operations follow (puts of members,
+// an explicit flush of the cache, a mode round trip), and in half of the cases the node goes
+// through a mode round trip before all of them.  Removals are left out on purpose: the continuation runs
+// with the cache's flusher moving freely, and a removal + re-put racing with a flush round is
+// the business of the overlapping histories.  A function of (seed, history, crash point) only.
+func vf15Continuation(r *verifkit.Run, jb *vf15Job, journal []string) []vf15Op {
+	rng := r.Rand(fmt.Sprintf("cont|%s", jb.name), jb.hs.idx*1000+jb.k)
+	n := len(jb.hs.objs)
+	var ops []vf15Op
+	first := vf15Op{Kind: "put", Obj: rng.IntN(n)}
+	if len(journal) < len(jb.hs.ops) {
+		if ip := jb.hs.ops[len(journal)]; ip.Kind == "put" || ip.Kind == "tombstone" {
+			first = ip
+		}
+	}
+	if rng.IntN(2) == 0 {
+		ops = append(ops, vf15Op{Kind: "mode-cycle"}) // maintenance right after the restart
+	}
+	ops = append(ops, first)
+	for k := rng.IntN(3); k > 0; k-- {
+		switch x := rng.IntN(6); {
+		case x < 2 && jb.hs.wc:
+			ops = append(ops, vf15Op{Kind: "flush"})
+		case x == 2:
+			ops = append(ops, vf15Op{Kind: "mode-cycle"})
+		default:
+			ops = append(ops, vf15Op{Kind: "put", Obj: rng.IntN(n)})
+		}
+	}
+	return ops
+}
+
 type vf15Job struct {
 	hs    *vf15Hist
 	name  string
@@ -864,7 +994,11 @@ func vf15Recover(r *verifkit.Run, jb *vf15Job, dir string, journal []string, cra
 		r.Violation("reopen-failed|"+key, where+": shard does not reopen: "+err.Error(), desc)
 		return nil
 	}
-	defer func() { r.Guard(desc, func() { _ = sh.Close() }) }()
+	defer func() {
+		if sh != nil {
+			r.Guard(desc, func() { _ = sh.Close() })
+		}
+	}()
 	if m := sh.GetMode(); m.NoMetabase() || m.ReadOnly() {
 		r.Violation("reopen-degraded|"+key, fmt.Sprintf("%s: shard reopens in mode %s", where, m), desc)
 		return nil
@@ -913,18 +1047,99 @@ func vf15Recover(r *verifkit.Run, jb *vf15Job, dir string, journal []string, cra
 		for a := range vf15CheckAll(r, sh, items, desc, keyOf("|after-restart-gc-and-flush"), ph+"_after_restart_gc_flush", where+", then one GC pass and an explicit flush on the restarted shard", failed) {
 			failed[a] = true
 		}
+		// what is unreadable up to here is what the stop itself did; the caller keeps it
+		stopFailed := make(map[oid.Address]bool, len(failed))
+		for a := range failed {
+			stopFailed[a] = true
+		}
+		vf15Continue(r, jb, &sh, dir, ep, items, desc, journal, key, keyOf, ph, where, failed)
+		return stopFailed
 	}
 	return failed
+}
+
+// vf15Continue: the restarted node does not stand still.  It goes on with a few operations
+// (vf15Continuation) on whatever the stop left behind, is then stopped cleanly and started
+// once more; the statement is demanded on the running node after these operations and again
+// after the second restart.  Addresses already judged unreadable for this recovery are not
+// judged again.
+func vf15Continue(r *verifkit.Run, jb *vf15Job, shp **Shard, dir string, ep *vf15Epoch, items []vf15Item, desc map[string]any,
+	journal []string, key string, keyOf func(string) func(vf15Item) (string, bool), ph, where string, failed map[oid.Address]bool) {
+	sh := *shp
+	cont := vf15Continuation(r, jb, journal)
+	var names, kinds, log []string
+	for _, op := range cont {
+		names = append(names, op.String())
+		kinds = append(kinds, op.Kind)
+	}
+	desc["continuation_after_restart"] = names
+	r.Count("continuations_after_restart_run", 1)
+	r.Seen("continuation_shapes", strings.Join(kinds, ","))
+	for _, op := range cont {
+		var err error
+		if r.Guard(desc, func() {
+			switch op.Kind {
+			case "put":
+				err = sh.Put(jb.hs.objs[op.Obj], jb.hs.bins[op.Obj])
+			case "tombstone":
+				ts := new(object.Object)
+				if err = ts.Unmarshal(jb.hs.tombs[op.Obj]); err == nil {
+					err = sh.Put(ts, jb.hs.tombs[op.Obj])
+				}
+			case "flush":
+				err = sh.FlushWriteCache(false)
+			case "mode-cycle":
+				err = vf15ModeCycle(sh)
+			}
+		}) {
+			return
+		}
+		res := "ok"
+		if err != nil {
+			res = "err"
+			log = append(log, op.String()+" err "+err.Error())
+		} else {
+			log = append(log, op.String()+" ok")
+		}
+		r.Count("continuation_ops_"+op.Kind+"_"+res, 1)
+	}
+	desc["continuation_journal"] = log
+	suffix := "|continued(" + strings.Join(kinds, ",") + ")"
+	wh := where + ", then one GC pass and a flush, then the restarted shard went on with " + strings.Join(names, " ")
+	for a := range vf15CheckAll(r, sh, items, desc, keyOf(suffix), ph+"_after_continuation", wh, failed) {
+		failed[a] = true
+	}
+	// second stop (a clean one) and restart
+	var err error
+	*shp = nil // closed here, not by the caller
+	if r.Guard(desc, func() { err = sh.Close() }) {
+		return
+	}
+	if err != nil {
+		r.Count("continuation_close_errors", 1)
+	}
+	var sh2 *Shard
+	if r.Guard(desc, func() { sh2, err = vf15Open(dir, jb.hs.wc, jb.hs.thr, jb.hs.bc, ep) }) {
+		return
+	}
+	if err != nil {
+		r.Violation("reopen-failed|"+key+suffix+"|second-restart", wh+", was stopped cleanly: shard does not reopen: "+err.Error(), desc)
+		return
+	}
+	*shp = sh2
+	for a := range vf15CheckAll(r, sh2, items, desc, keyOf(suffix+"|second-restart"), ph+"_after_continuation_and_second_restart", wh+", was stopped cleanly and started again", failed) {
+		failed[a] = true
+	}
 }
 
 // vf15Prefixes: which instrumentation points are crash points.  Component step
 // boundaries always; the FSTree-internal syscall points (the subject of C12) only in the
 // thorough tier, to see the shard-level consequence of a half-done blob or cache write.
-func vf15IsCrashPoint(r *verifkit.Run, name string) bool {
+func vf15IsCrashPoint(r *verifkit.Run, hs *vf15Hist, name string) bool {
 	if strings.HasPrefix(name, "shard.") || strings.HasPrefix(name, "writecache.") {
 		return true
 	}
-	return r.Thorough() && strings.HasPrefix(name, "fstree.")
+	return (r.Thorough() || hs.syscalls) && strings.HasPrefix(name, "fstree.")
 }
 
 func vf15NormStep(s string) string {
@@ -942,9 +1157,10 @@ func TestVerif_C15(t *testing.T) {
 	}
 	r := verifkit.Start(t, "C15", "fault_enumeration")
 	defer r.Finish()
-	r.SetRule("history = seeded script of <=10 shard operations over 3-5 objects (distinct sizes on both sides of the write-cache batch threshold, some expiring; write-cache on in 3 of 4 histories), either sequential (background flush only as an operation of its own) or overlapping (the background flusher is advanced to 2-3 of its step boundaries scheduled/taken/read/stored/done and held at each while 1-2 operations, mostly on one member of the batch in flight, execute); case = (history, hook point, k-th hit) enumerated from a dry run, plus (history, stop after the last operation); a crash case is non-trivial when the child really died at the point; distinct = distinct (history, point, k) / distinct sequence of (operation, flusher phase) of an overlapping history")
+	r.SetRule("history = seeded script of <=10 shard operations over 3-5 objects (distinct sizes on both sides of the write-cache batch threshold, some expiring; write-cache on in 3 of 4 histories), either sequential (background flush only as an operation of its own) or overlapping (the background flusher is advanced to 2-3 of its step boundaries scheduled/taken/read/stored/done and held at each while 1-2 operations, mostly on one member of the batch in flight, execute) or short (<=6 operations, write-cache on) around a mode round trip read-only/read-write of the shard, with the syscall points inside the file writes as crash points in every tier; every recovery is followed by a seeded continuation on the restarted shard (the interrupted put repeated or a member put again, up to two more puts/flushes, a mode round trip in half of the cases), a clean stop and a second restart; case = (history, hook point, k-th hit) enumerated from a dry run, plus (history, stop after the last operation); a crash case is non-trivial when the child really died at the point; distinct = distinct (history, point, k) / distinct sequence of (operation, flusher phase) of an overlapping history")
 	r.Assume("process-crash model: SIGKILL at the step boundary, everything handed to the kernel survives (no power loss)")
 	r.Assume("reopen without metabase resync; GC passes, epoch and flushes are driven explicitly by the script; the background flusher (one worker) moves only inside 'bgflush'/'bg' operations and stands still at its step boundaries otherwise, so operation/flusher interleavings are those the script names, at step-boundary granularity")
+	r.Assume("the continuation after a restart runs in the judging process with the cache's flusher moving freely; it contains no removals")
 	r.Assume("'metadata reports as available' = Shard.Exists(addr,false) returns true without error at the epoch of the last completed epoch operation")
 	base := os.Getenv("VERIF_SCRATCH")
 	if base == "" {
@@ -964,6 +1180,14 @@ func TestVerif_C15(t *testing.T) {
 	for i := 0; i < nOver; i++ {
 		hs := vf15GenOverlapHist(r, i)
 		hs.enumerate = i < nOverEnum
+		hists = append(hists, hs)
+	}
+	// short histories around a mode round trip of the shard, crash points down to the syscalls
+	// of the file writes
+	nMode := r.Pick(4, 24)
+	for i := 0; i < nMode; i++ {
+		hs := vf15GenModeHist(r, i)
+		hs.enumerate = true
 		hists = append(hists, hs)
 	}
 	run := func(jobs []*vf15Job, f func(*vf15Job)) {
@@ -1001,10 +1225,17 @@ func TestVerif_C15(t *testing.T) {
 			}
 			r.Count("dry_ops_"+jb.hs.ops[i].Kind+"_"+outcome, 1)
 		}
-		if jb.hs.idx < 3 || (jb.hs.overlap && jb.hs.idx < 1003) {
+		if jb.hs.idx < 3 || (jb.hs.overlap && jb.hs.idx < 1003) || (jb.hs.syscalls && jb.hs.idx < 2003) {
 			r.Sample(map[string]any{"history": jb.hs.describe(), "step_boundaries_passed": len(jb.order), "dry_run_journal": journal})
 		}
 		jb.hs.dryJournal = journal
+		if jb.hs.syscalls {
+			var ops []string
+			for _, o := range jb.hs.ops {
+				ops = append(ops, o.String())
+			}
+			r.Seen("mode_round_trip_histories", fmt.Sprintf("%d: %s", jb.hs.idx, strings.Join(ops, " ")))
+		}
 		if jb.hs.overlap {
 			for i, op := range jb.hs.ops {
 				switch {
@@ -1052,7 +1283,7 @@ func TestVerif_C15(t *testing.T) {
 			}
 			cnt[name]++
 			// overlap histories: the puts before the first bg are the sequential histories' business
-			if vf15IsCrashPoint(r, name) && d.hs.enumerate && !(d.hs.overlap && opIdx < d.hs.firstBg) {
+			if vf15IsCrashPoint(r, d.hs, name) && d.hs.enumerate && !(d.hs.overlap && opIdx < d.hs.firstBg) {
 				jobs = append(jobs, &vf15Job{hs: d.hs, name: name, k: cnt[name], step: vf15NormStep(step)})
 				r.Seen("crash_points_enumerated", name)
 				n++
@@ -1081,6 +1312,14 @@ func TestVerif_C15(t *testing.T) {
 				inProgress = jb.hs.ops[len(journal)].Kind
 			}
 			r.Seen("crash_situations", fmt.Sprintf("wc=%v during=%s at=%s", jb.hs.wc, inProgress, jb.name))
+			if strings.HasPrefix(jb.name, "fstree.") {
+				for i := 0; i < len(journal) && i < len(jb.hs.ops); i++ {
+					if jb.hs.ops[i].Kind == "mode-cycle" {
+						r.Count("crashes_inside_a_file_write_after_a_mode_round_trip", 1)
+						break
+					}
+				}
+			}
 			vf15Recover(r, jb, dir, journal, true)
 		case res.ExitCode == 0 && !res.TimedOut && !res.Signaled:
 			// the schedule of the background flusher differed from the dry run
